@@ -264,4 +264,11 @@ def _vrfy_asn1_queries():
     return qs
 def queries():
     import C06
-    return _c05_queries() + _vrfy_asn1_queries() + [q for q in C06.queries() if q.name.startswith("step-recvrec_ack-") and q.tier == "quick"]
+    qs = _c05_queries() + _vrfy_asn1_queries() + [q for q in C06.queries() if q.name.startswith("step-recvrec_ack-") and q.tier == "quick"]
+    try:
+        # untrusted DER ECDSA signatures: no read beyond the given bytes (C11 query family atr-exact-*; seeded change C05g)
+        import C11
+        qs = qs + [q for q in C11.queries() if q.name.startswith("atr-exact-") and q.tier == "quick"]
+    except Exception:
+        pass
+    return qs
